@@ -185,7 +185,7 @@ def parse_iso8601(
         if ambiguous_date:
             # We can "safely" assume that the ambiguous date
             # was actually a time in the form hhmmss
-            hhmmss = f"{year!s}{month!s:0>2}"
+            hhmmss = f"{year:04d}{month:02d}"
 
             return datetime.time(int(hhmmss[:2]), int(hhmmss[2:4]), int(hhmmss[4:]))
 
